@@ -132,4 +132,149 @@ theorem floatToken_render (t : Tok) (hok : t.ok = true) (sp : List Char) (hsp : 
       floatCore_render t _ Y hY]
     simp [Sign.render]
 
+/-! ## `scanArgs` -/
+
+/-- a numeral of the converter's dialect: at least one digit, followed by spaces only -/
+def TokOKmd (t : CTok) : Prop := t.tok.ok = true ∧ ∀ c ∈ t.sep, c = ' '
+
+theorem TokOKmd.toOK {t : CTok} (h : TokOKmd t) : TokOK t :=
+  ⟨h.1, by rw [List.all_eq_true]; intro c hc; rw [h.2 c hc]; decide⟩
+
+/-- what `scanArgs` leaves unread in front of `X`: the spaces after the last numeral read (or the
+    leading spaces if it reads nothing) -/
+def trail : List CTok → List Char → List Char
+  | [], sp => sp
+  | t :: r, _ => trail r t.sep
+
+theorem trail_spaces (g : List CTok) (hg : ∀ t ∈ g, TokOKmd t) (sp : List Char) (hsp : ∀ c ∈ sp, c = ' ') :
+    ∀ c ∈ trail g sp, c = ' ' := by
+  induction g generalizing sp with
+  | nil => exact hsp
+  | cons t r ih =>
+    exact ih (fun t' h' => hg t' (List.mem_cons_of_mem _ h')) t.sep (hg t List.mem_cons_self).2
+
+theorem trail_len (g : List CTok) (sp : List Char) :
+    (trail g sp).length ≤ sp.length + (g.flatMap CTok.render).length := by
+  induction g generalizing sp with
+  | nil => simp [trail]
+  | cons t r ih =>
+    have := ih t.sep
+    simp only [trail, List.flatMap_cons, List.length_append, CTok.render]
+    omega
+
+theorem trail_lt (g : List CTok) (hne : g ≠ []) (hg : ∀ t ∈ g, TokOKmd t) (sp : List Char) :
+    (trail g sp).length < (g.flatMap CTok.render).length := by
+  cases g with
+  | nil => exact absurd rfl hne
+  | cons t r =>
+    have := trail_len r t.sep
+    obtain ⟨w, tl, hr, _⟩ := tok_first t.tok (hg t List.mem_cons_self).1
+    simp only [trail, List.flatMap_cons, List.length_append, CTok.render, hr, List.length_cons]
+    omega
+
+theorem headD_append (r : List CTok) (X : List Char) :
+    (r.flatMap CTok.render ++ X).headD 'z' = firstOf r (X.headD 'z') := by
+  unfold firstOf
+  cases h : r.flatMap CTok.render with
+  | nil => simp
+  | cons c cs => simp
+
+theorem scan_group (g : List CTok) (hg : ∀ t ∈ g, TokOKmd t) (X : List Char)
+    (hch : ChainTo g (X.headD 'z')) :
+    ∀ (sp : List Char), (∀ c ∈ sp, c = ' ') →
+    Md.scanArgs (α := α) g.length (sp ++ g.flatMap CTok.render ++ X) =
+      some (g.map (fun t => t.tok.value32), trail g sp ++ X) := by
+  induction g with
+  | nil => intro sp _; simp [Md.scanArgs, trail]
+  | cons t r ih =>
+    intro sp hsp
+    have ht := hg t List.mem_cons_self
+    -- what follows the numeral
+    have hY : StopsL t.tok (t.sep ++ r.flatMap CTok.render ++ X) := by
+      intro y hy
+      cases hs : t.sep with
+      | cons s ss =>
+        rw [hs] at hy; simp at hy; subst hy
+        have : s = ' ' := ht.2 s (by simp [hs])
+        subst this
+        exact ⟨by decide, fun h => by cases h⟩
+      | nil =>
+        rw [hs, List.nil_append] at hy
+        have hy' : (r.flatMap CTok.render ++ X).headD 'z' = y := by
+          cases hl : r.flatMap CTok.render ++ X with
+          | nil => rw [hl] at hy; simp at hy
+          | cons a b => rw [hl] at hy; simp at hy; simp [hy]
+        rw [headD_append] at hy'
+        rcases hch.1.2 with h | h
+        · exact absurd hs h
+        · rw [hy'] at h; exact h
+    have hstr : sp ++ (t :: r).flatMap CTok.render ++ X =
+        sp ++ t.tok.render ++ (t.sep ++ r.flatMap CTok.render ++ X) := by
+      simp [CTok.render]
+    rw [hstr, List.length_cons]
+    simp only [Md.scanArgs, floatToken_render t.tok ht.1 sp hsp _ hY, parse_render t.tok ht.1]
+    rw [ih (fun t' h' => hg t' (List.mem_cons_of_mem _ h')) hch.2 t.sep ht.2]
+    rfl
+
+/-! ## tables -/
+
+theorem arityMd_eq (v : Char) : arityMd v = Md.opArgCount v := by
+  unfold arityMd Md.opArgCount
+  split
+  · rfl
+  · rfl
+  · rename_i h1 h2
+    unfold arity
+    split <;> (try rfl)
+    · exact absurd rfl h1
+    · exact absurd rfl h2
+    · split <;> simp_all
+
+/-- the converter's verb letters are letters, not spaces, and delimit numerals -/
+theorem op_letter (x : Char) (h : Md.opArgCount x ≠ none) :
+    x ≠ ' ' ∧ (('A' ≤ x ∧ x ≤ 'Z') ∨ ('a' ≤ x ∧ x ≤ 'z')) ∧ isSep x = false ∧ isDigit x = false ∧ x ≠ '.' := by
+  unfold Md.opArgCount at h
+  split at h <;> first | (refine ⟨?_, ?_, ?_, ?_, ?_⟩ <;> decide) | exact absurd rfl h
+
+/-- the first character of a numeral is neither a space nor a letter -/
+theorem tok_first_md (t : Tok) (hok : t.ok = true) :
+    ∃ w tl, t.render = w :: tl ∧ w ≠ ' ' ∧ ¬ (('A' ≤ w ∧ w ≤ 'Z') ∨ ('a' ≤ w ∧ w ≤ 'z')) := by
+  rw [render_eq]
+  cases hs : t.sign with
+  | minus => exact ⟨'-', _, by simp [Sign.render]; rfl, by decide, by decide⟩
+  | plus => exact ⟨'+', _, by simp [Sign.render]; rfl, by decide, by decide⟩
+  | none =>
+    cases hi : t.int with
+    | cons d ds =>
+      have h1 : ∀ d : Fin 10, digitChar d ≠ ' ' ∧
+          ¬ (('A' ≤ digitChar d ∧ digitChar d ≤ 'Z') ∨ ('a' ≤ digitChar d ∧ digitChar d ≤ 'z')) := by decide
+      exact ⟨digitChar d, _, by simp [Sign.render]; rfl, (h1 d).1, (h1 d).2⟩
+    | nil =>
+      unfold fracR
+      cases hf : t.frac with
+      | none => simp [Tok.ok, Tok.fracDigits, hi, hf] at hok
+      | some f => exact ⟨'.', _, by simp [Sign.render]; rfl, by decide, by decide⟩
+
+theorem md_normalize_length (a : List α) (n : Nat) (o : Char) (size offX offY outSize : α) (rel : Bool) :
+    (Md.normalizeArgs a n o size offX offY outSize rel).length = a.length := by
+  simp [Md.normalizeArgs]
+
+/-- the calls the converter makes for one operand group -/
+theorem emit_draw_md (o : Char) (n : Nat) (ho : Md.opArgCount o = some n) (hn : n ≠ 0) (started : Bool)
+    (adj : UInt8) (a : List α) (ha : a.length = n) :
+    Md.emitOp o started adj a = if o = 'M' ∧ started = false then start adj a else draw o a := by
+  unfold Md.opArgCount at ho
+  split at ho <;> cases ho <;>
+    first
+    | exact absurd rfl hn
+    | (obtain ⟨a0, rfl⟩ := len1 ha; rfl)
+    | (obtain ⟨a0, a1, rfl⟩ := len2 ha; cases started <;> rfl)
+    | (obtain ⟨a0, a1, a2, a3, rfl⟩ := len4 ha; rfl)
+    | (obtain ⟨a0, a1, a2, a3, a4, a5, rfl⟩ := len6 ha; rfl)
+
+theorem emit_z_md (o : Char) (ho : Md.opArgCount o = some 0) (started : Bool) (adj : UInt8) :
+    Md.emitOp o started adj ([] : List α) = [] := by
+  unfold Md.opArgCount at ho
+  split at ho <;> cases ho <;> rfl
+
 end Ivg.MdParse
